@@ -15,6 +15,10 @@ func main() {
 		os.Exit(2)
 	}
 	cmd := os.Args[1]
+	if cmd == "leaf" {
+		runLeaf(os.Args[2:])
+		return
+	}
 	fs := flag.NewFlagSet(cmd, flag.ExitOnError)
 	seed := fs.Int64("seed", 1, "seed")
 	out := fs.String("out", "trace.ndjson", "trace output")
@@ -27,6 +31,7 @@ func main() {
 	tables := fs.String("tables", "", "expected-value tables emitted by TLC")
 	batches := fs.String("batches", "", "batches emitted by TLC")
 	quick := fs.Bool("quick", false, "quick tier (sampled flag combinations)")
+	maxtlc := fs.Int("maxtlc", 0, "log files up to this size byte for byte (layout decoding by TLC)")
 	nogc := fs.Bool("nogc", false, "park the garbage collector (build histories)")
 	fs.Parse(os.Args[2:])
 	defer func() {
@@ -55,6 +60,7 @@ func main() {
 		tr := NewTracer(*out)
 		startWatchdog(tr, 120*time.Second, 6<<30)
 		l := NewLife(tr, r, *dir)
+		l.maxTLC = *maxtlc
 		runLifeProfile(l, *profile, *n, *steps)
 		tr.Close()
 		fmt.Printf("events=%d\n", tr.N)
@@ -72,10 +78,24 @@ func main() {
 		runDvVisit(*in, *tables, *dir, *out, *quick)
 	case "postiter":
 		runPostIter(*in, *tables, *batches, *dir, *out, *quick, *seed)
+	case "corpus-gen":
+		tr := NewTracer(*out)
+		l := NewLife(tr, r, *dir)
+		l.keepFiles = true
+		l.CorpusGen(*in)
+		tr.Close()
+		fmt.Printf("events=%d\n", tr.N)
+	case "corpus-open":
+		tr := NewTracer(*out)
+		l := NewLife(tr, r, *dir)
+		nf := l.CorpusOpen(*in)
+		tr.Close()
+		fmt.Printf("files=%d events=%d\n", nf, tr.N)
 	case "life-rerun":
 		tr := NewTracer(*out)
 		startWatchdog(tr, 120*time.Second, 6<<30)
 		l := NewLife(tr, r, *dir)
+		l.maxTLC = *maxtlc
 		l.Rerun(*in)
 		tr.Close()
 		fmt.Printf("events=%d\n", tr.N)
@@ -83,6 +103,7 @@ func main() {
 		tr := NewTracer(*out)
 		startWatchdog(tr, 120*time.Second, 6<<30)
 		l := NewLife(tr, r, *dir)
+		l.maxTLC = *maxtlc
 		if *nogc {
 			l.parkGC = true
 			debug.SetGCPercent(-1)
